@@ -20,6 +20,7 @@ import re
 from facts import Body
 
 MAX_BLOCKS = 60
+MAX_ASYNC_BLOCKS = 260
 MAX_DEPTH = 3
 _HERE = os.path.dirname(os.path.abspath(__file__))
 _known = None
@@ -60,6 +61,16 @@ def is_helper(facts, path, caller_path):
         return False
     if path in known_functions():
         return False
+    if async_body_of(facts, path) is not None:
+        # an `async fn`: the body proper is the coroutine; it is inlined at `.await` sites of coroutine callers (splice_async)
+        cb = facts.bodies[async_body_of(facts, path)]
+        if len(cb.j["blocks"]) > MAX_ASYNC_BLOCKS:
+            return False
+        for blk in cb.j["blocks"]:
+            t = blk["term"]
+            if t["k"] == "call" and t.get("fn") and (t["fn"].get("inst") or t["fn"].get("decl")) == path:
+                return False
+        return True
     # no yields, no self-recursion
     for blk in b.j["blocks"]:
         t = blk["term"]
@@ -68,6 +79,79 @@ def is_helper(facts, path, caller_path):
         if t["k"] == "call" and t.get("fn") and (t["fn"].get("inst") or t["fn"].get("decl")) == path:
             return False
     return True
+
+
+def async_body_of(facts, path):
+    """for the outer function of an `async fn` (whose MIR only builds the coroutine value): the path of the coroutine body; else None"""
+    b = facts.bodies.get(path)
+    if b is None:
+        return None
+    live = [blk for blk in b.j["blocks"] if not blk["cleanup"]]
+    aggs = [st for blk in live for st in blk["st"] if st["k"] == "a" and st["r"].get("k") == "agg" and st["r"].get("ak") == "coroutine"]
+    others = [st for blk in live for st in blk["st"] if st["k"] == "a" and not (st["r"].get("k") == "agg" and st["r"].get("ak") == "coroutine")]
+    calls = [blk for blk in live if blk["term"]["k"] == "call"]
+    if len(aggs) != 1 or others or calls or aggs[0]["l"] != [0, []]:
+        return None
+    cp = aggs[0]["r"].get("def")
+    if cp != path + "::{closure#0}" or cp not in facts.bodies:
+        return None
+    # the coroutine captures exactly the parameters, in order
+    ops = aggs[0]["r"]["ops"]
+    if len(ops) != b.j["arg_count"] or any(o[0] not in ("c", "m") or o[1] != [i + 1, []] for i, o in enumerate(ops)):
+        return None
+    return cp
+
+
+def _fn_of(t):
+    return (t.get("fn") or {}).get("decl") or ""
+
+
+def await_shape(caller, call_block):
+    """the `.await` of the future returned by the call terminating `call_block`:
+    (local holding the Poll value, block of the Ready arm that reads its payload) or None if the call's result is not awaited at once"""
+    call = caller["blocks"][call_block]["term"]
+    dest = call.get("dest")
+    if dest is None or dest[1] or call.get("t") is None:
+        return None
+    blk = caller["blocks"][call["t"]]
+    t = blk["term"]
+    if t["k"] != "call" or not _fn_of(t).endswith("IntoFuture::into_future") or not t["args"] or t["args"][0][0] not in ("c", "m") or t["args"][0][1] != [dest[0], []]:
+        return None
+    if any(st["k"] == "a" for st in blk["st"]):
+        return None
+    cur = t.get("t")
+    poll = None
+    for _ in range(12):
+        if cur is None:
+            return None
+        t = caller["blocks"][cur]["term"]
+        if t["k"] == "goto":
+            cur = t["t"]
+        elif t["k"] == "call":
+            if _fn_of(t).endswith("Future::poll"):
+                poll = t
+                break
+            if not re.search(r"Pin::<.*>::new_unchecked$|future::get_context$", _fn_of(t)):
+                return None
+            cur = t.get("t")
+        else:
+            return None
+    if poll is None or poll["dest"][1] or poll.get("t") is None:
+        return None
+    pd = poll["dest"][0]
+    sw = caller["blocks"][poll["t"]]["term"]
+    if sw["k"] != "switch":
+        return None
+    ready = [b for v, b in sw["vals"] if str(v) == "0"]
+    if len(ready) != 1:
+        return None
+    cur = ready[0]
+    for _ in range(4):
+        blk = caller["blocks"][cur]
+        if blk["st"] or blk["term"]["k"] != "goto":
+            break
+        cur = blk["term"]["t"]
+    return pd, cur
 
 
 class _Remap:
@@ -79,6 +163,13 @@ class _Remap:
         self.callee = callee
         self.tyix = {s: i for i, s in enumerate(caller["tys"])}
         self.subst = {}
+        self.upvars = None
+
+    def intern(self, s):
+        if s not in self.tyix:
+            self.tyix[s] = len(self.caller["tys"])
+            self.caller["tys"].append(s)
+        return self.tyix[s]
 
     def ty(self, i):
         if i is None:
@@ -98,6 +189,9 @@ class _Remap:
         return None if b is None else b + self.boff
 
     def place(self, p):
+        if self.upvars is not None and p[0] == 1 and p[1] and isinstance(p[1][0], list) and p[1][0][0] == "f" and p[1][0][1] < len(self.upvars):
+            base = self.upvars[p[1][0][1]]
+            return [base[0], list(base[1]) + self._proj(p[1][1:])]
         sub = self.subst.get(p[0]) if self.subst else None
         if sub is not None:
             kind, src = sub
@@ -196,6 +290,8 @@ class _Remap:
             t["cond"] = self.operand(t["cond"])
         elif k == "yield":
             t["arg"] = self.place(t["arg"])
+            if isinstance(t.get("v"), list):
+                t["v"] = self.operand(t["v"])
         return t
 
 
@@ -217,13 +313,16 @@ def _callee_is_pure(callee):
     return True
 
 
-def _param_is_stable(callee, l):
-    """the parameter local is never assigned, mutably borrowed or moved into a call as a whole"""
+def _param_is_stable(callee, l, allowed_defs=0):
+    """the parameter local is never assigned (beyond `allowed_defs` initialisations), mutably borrowed or moved into a call as a whole"""
+    defs = 0
     for blk in callee["blocks"]:
         for st in blk["st"]:
             if st["k"] == "a":
                 if st["l"][0] == l and not st["l"][1]:
-                    return False
+                    defs += 1
+                    if defs > allowed_defs:
+                        return False
                 r = st["r"]
                 if r["k"] in ("ref", "rawptr") and r["pl"][0] == l and not any(e == "*" for e in r["pl"][1]) and (r["k"] == "rawptr" or r.get("bk") == "mut"):
                     return False
@@ -303,6 +402,85 @@ def splice(caller, call_block, callee):
     caller["blocks"][call_block]["term"] = {"k": "goto", "t": rm.block(0), "s": span}
 
 
+def async_param_substitution(caller, call_block, cor):
+    """the named locals an `async fn` body moves its captured parameters into (`let self = self;` of the desugaring): when the argument
+    is a fresh reborrow made in the call block, `*local` is the caller's place"""
+    call = caller["blocks"][call_block]["term"]
+    stmts = caller["blocks"][call_block]["st"]
+    out = {}
+    for st in cor["blocks"][0]["st"]:
+        if not (st["k"] == "a" and not st["l"][1] and st["r"]["k"] == "use" and st["r"]["op"][0] in ("c", "m")):
+            continue
+        src = st["r"]["op"][1]
+        if src[0] != 1 or len(src[1]) != 1 or not isinstance(src[1][0], list) or src[1][0][0] != "f":
+            continue
+        i, k = src[1][0][1], st["l"][0]
+        if i >= len(call["args"]):
+            continue
+        a = call["args"][i]
+        if a[0] not in ("c", "m") or a[1][1] or not _param_is_stable(cor, k, allowed_defs=1):
+            continue
+        tl = a[1][0]
+        d = None
+        for s2 in reversed(stmts):
+            if s2["k"] == "a" and s2["l"][0] == tl:
+                d = s2["r"] if not s2["l"][1] else None
+                break
+        if d is not None and d["k"] == "ref":
+            out[k] = ("ref", d["pl"])
+    return out
+
+
+def splice_async(caller, call_block, outer, cor):
+    """inline the body `cor` of the async fn `outer` at `outer(args).await` in the coroutine `caller` (modified in place); False if the
+    call's future is not awaited on the spot"""
+    from facts import _each_place
+    shape = await_shape(caller, call_block)
+    if shape is None:
+        return False
+    pd, ready = shape
+    call = caller["blocks"][call_block]["term"]
+    rm = _Remap(caller, cor)
+    span = call.get("s", [0])
+    for i, d in enumerate(cor["locals"]):
+        d = dict(d)
+        d["ty"] = rm.ty(d["ty"])
+        if i == 0:
+            d["name"] = None
+        caller["locals"].append(d)
+    entry_stmts = []
+    upvars = []
+    for i, a in enumerate(call["args"]):
+        if i + 1 > outer["arg_count"]:
+            break
+        od = outer["locals"][i + 1]
+        caller["locals"].append({"ty": rm.intern(outer["tys"][od["ty"]]), "name": None, "adt": od.get("adt"), "user": False})
+        u = len(caller["locals"]) - 1
+        upvars.append([u, []])
+        entry_stmts.append({"k": "a", "l": [u, []], "r": {"k": "use", "op": a}, "s": span})
+    rm.upvars = upvars
+    rm.subst = async_param_substitution(caller, call_block, cor)
+    # the callee's task context is the caller's
+    entry_stmts.append({"k": "a", "l": [rm.local(2), []], "r": {"k": "use", "op": ["c", [2, []]]}, "s": span})
+    for blk in cor["blocks"]:
+        nb = {"cleanup": blk["cleanup"], "st": [rm.stmt(s) for s in blk["st"]], "term": None}
+        t = blk["term"]
+        if t["k"] == "ret":
+            nb["term"] = {"k": "goto", "t": ready, "s": span}
+        else:
+            nb["term"] = rm.term(t)
+        caller["blocks"].append(nb)
+    caller["blocks"][call_block]["st"] = caller["blocks"][call_block]["st"] + entry_stmts
+    caller["blocks"][call_block]["term"] = {"k": "goto", "t": rm.block(0), "s": span}
+    # the Ready arm reads the payload of the Poll value: that is the callee's return place now
+    ret = rm.local(0)
+    for pl in _each_place(caller):
+        if pl[0] == pd and len(pl[1]) >= 2 and isinstance(pl[1][0], list) and pl[1][0][0] == "d" and isinstance(pl[1][1], list) and pl[1][1][0] == "f":
+            pl[0] = ret
+            del pl[1][:2]
+    return True
+
+
 def inline_all(facts):
     """a copy of `facts` with helper calls spliced into their callers; returns (new facts, {helper path: number of splices})"""
     new = copy.copy(facts)
@@ -315,6 +493,7 @@ def inline_all(facts):
             continue
         j = None
         depth_of = {}
+        skipped = set()
         changed = True
         rounds = 0
         while changed and rounds < 40:
@@ -329,12 +508,18 @@ def inline_all(facts):
                 if not callee or not is_helper(facts, callee, path):
                     continue
                 d = depth_of.get(bi, 0)
-                if d >= MAX_DEPTH:
+                if d >= MAX_DEPTH or (bi, callee) in skipped:
                     continue
                 if j is None:
                     j = copy.deepcopy(b.j)
                 first_new = len(j["blocks"])
-                splice(j, bi, facts.bodies[callee].j)
+                cor = async_body_of(facts, callee)
+                if cor is not None:
+                    if not b.coroutine or not splice_async(j, bi, facts.bodies[callee].j, facts.bodies[cor].j):
+                        skipped.add((bi, callee))
+                        continue
+                else:
+                    splice(j, bi, facts.bodies[callee].j)
                 for nb in range(first_new, len(j["blocks"])):
                     depth_of[nb] = d + 1
                 counts[callee] = counts.get(callee, 0) + 1
